@@ -28,6 +28,11 @@ def floors(tier):
     return {'plans_checked': 1500, 'len:conjunct_kinds': 10, 'using_checked': 300, 'columns_map_checked': 100, 'len:shapes': 3}
 
 
+def ceilings(tier):
+    # fractions of all evaluations; the unchanged tree stays below about two thirds of each
+    return {'internal_error_is_C09': 0.01}
+
+
 class Q:
     pass
 
